@@ -35,6 +35,9 @@ type HarnessSpec struct {
 	Doc    string             `json:"doc"`
 	Bounds string             `json:"bounds"`
 	Tiers  map[string]TierCfg `json:"tiers"`
+	// ExpectCovers: verifrt.Cover labels that some path must reach (reachability witnesses: the
+	// accepting side of an authorisation check etc.); a missing one is reported as inconclusive.
+	ExpectCovers []string `json:"expect_covers"`
 }
 
 type Spec struct {
@@ -69,6 +72,7 @@ type World struct {
 	debug      bool
 	nativeDiv  bool
 	maxPermute int
+	witnesses  int
 	known      map[string]bool
 	solverBin  string
 	solverMs   int
@@ -85,19 +89,26 @@ type Worker struct {
 }
 
 type witnessBook struct {
-	mu  sync.Mutex
-	got map[string]bool
+	mu    sync.Mutex
+	got   map[string]int
+	limit int
+}
+
+// WitnessRec: a model of one completed path plus the verifrt.Cover labels that path reached.
+type WitnessRec struct {
+	Model  map[string]string `json:"model"`
+	Covers []string          `json:"covers,omitempty"`
 }
 
 func (wk *Worker) needWitness(h string) bool {
 	wk.wit.mu.Lock()
 	defer wk.wit.mu.Unlock()
-	return !wk.wit.got[h]
+	return wk.wit.got[h] < wk.wit.limit
 }
 func (wk *Worker) gotWitness(h string) {
 	wk.wit.mu.Lock()
 	defer wk.wit.mu.Unlock()
-	wk.wit.got[h] = true
+	wk.wit.got[h]++
 }
 
 // Overlay builds the overlay map: verifrt package + harness files of the spec.
@@ -238,7 +249,7 @@ type HarnessResult struct {
 	Reached     map[string]int    `json:"assert_reached"`
 	Violations  []Violation       `json:"violations"`
 	Inconcl     []string          `json:"inconclusive"`
-	Witness     map[string]string `json:"witness,omitempty"`
+	Witnesses   []WitnessRec      `json:"witnesses,omitempty"`
 	PCSample    string            `json:"pc_sample,omitempty"`
 	Covers      []string          `json:"covers,omitempty"`
 	Funcs       []string          `json:"functions_encoded"`
@@ -293,7 +304,7 @@ func (w *World) Explore(hs []*Harness, nworkers int) *RunResult {
 		stack = append(stack, workItem{hs[i], nil, nil})
 	}
 	active := 0
-	wit := &witnessBook{got: map[string]bool{}}
+	wit := &witnessBook{got: map[string]int{}, limit: w.witnesses}
 	var wg sync.WaitGroup
 	violSeen := map[string]bool{}
 	for i := 0; i < nworkers; i++ {
@@ -380,8 +391,17 @@ func (w *World) Explore(hs []*Harness, nworkers int) *RunResult {
 				for _, s := range pr.Inconcl {
 					addUnique(&hr.Inconcl, s)
 				}
-				if pr.Witness != nil && hr.Witness == nil {
-					hr.Witness = pr.Witness
+				if pr.Witness != nil {
+					var cv []string
+					for c := range pr.Covers {
+						if !strings.HasPrefix(c, "maprange@") && !strings.HasPrefix(c, "wall-clock") {
+							cv = append(cv, c)
+						}
+					}
+					sort.Strings(cv)
+					hr.Witnesses = append(hr.Witnesses, WitnessRec{Model: pr.Witness, Covers: cv})
+				}
+				if pr.Witness != nil && hr.PCSample == "" {
 					hr.PCSample = pr.PCSample
 				}
 				for f := range pr.Funcs {
